@@ -32,15 +32,16 @@ def run():
         # a module that does not parse makes the checks using it inconclusive (exit 2) on their own;
         # setup only warns, it fails for missing infrastructure only
         ctx.cleanup()
-        props = sorted({m.group(0).upper() for root, _d, files in os.walk(vlib.HARNESS) for f in files
-                        for m in [__import__("re").match(r"^c\d\d", f)] if m})
+        import re
+        props = sorted({x.upper() for root, _d, files in os.walk(vlib.HARNESS) for f in files
+                        for m in [re.match(r"^((?:[a-z]\d\d)+)_", f)] if m for x in re.findall(r"[a-z]\d\d", m.group(1))})
         for pid in props:
             c = vlib.Ctx(pid, "quick", 1)
             try:
                 pkgs = []
                 for root, _d, files in os.walk(vlib.HARNESS):
                     rel = os.path.relpath(root, vlib.HARNESS)
-                    if rel != "." and not rel.startswith("verifx") and any(f.startswith(pid.lower() + "_") and f.endswith(".go") for f in files):
+                    if rel != "." and not rel.startswith("verifx") and any(f.endswith(".go") and re.match(r"^((?:[a-z]\d\d)+)_", f) and pid.lower() in re.findall(r"[a-z]\d\d", re.match(r"^((?:[a-z]\d\d)+)_", f).group(1)) for f in files):
                         pkgs.append(rel)
                 r, out = c.go_build_all(sorted(pkgs))
                 print("go harness build %s: rc=%d (%d packages)" % (pid, r, len(pkgs)))
